@@ -225,6 +225,24 @@ Proof.
   split; [apply lat_distance | split; [apply lat_distance_vec | apply lat_distance_dir]]; assumption.
 Qed.
 Print Assumptions C02_lattice_invariant_distance.
+(* distanceZ / distanceXY: also the reference groups may sit in any periodic image (for the two-group axis this was
+   refuted by the code before the fix of distance_z::calc_value, see known_findings.txt) *)
+Theorem C02_lattice_invariant_distanceZ : forall lx ly lz, 0 < lx -> 0 < ly -> 0 < lz -> forall axis n m k main ref ref2,
+  total_mass Rops main <> 0 -> total_mass Rops ref <> 0 ->
+  (cv_distance_z_fixed Rops true (Some (lx, ly, lz)) axis (lshift lx ly lz n main) (lshift lx ly lz m ref) =
+   cv_distance_z_fixed Rops true (Some (lx, ly, lz)) axis main ref /\
+   cv_distance_xy_fixed Rops true (Some (lx, ly, lz)) axis (lshift lx ly lz n main) (lshift lx ly lz m ref) =
+   cv_distance_xy_fixed Rops true (Some (lx, ly, lz)) axis main ref) /\
+  (total_mass Rops ref2 <> 0 ->
+   cv_distance_z_ref2 Rops true (Some (lx, ly, lz)) (lshift lx ly lz n main) (lshift lx ly lz m ref) (lshift lx ly lz k ref2) =
+   cv_distance_z_ref2 Rops true (Some (lx, ly, lz)) main ref ref2 /\
+   cv_distance_xy_ref2 Rops true (Some (lx, ly, lz)) (lshift lx ly lz n main) (lshift lx ly lz m ref) (lshift lx ly lz k ref2) =
+   cv_distance_xy_ref2 Rops true (Some (lx, ly, lz)) main ref ref2).
+Proof.
+  intros lx ly lz Hx Hy Hz axis n m k main ref ref2 H1 H2.
+  split; [apply lat_distance_z_fixed | intros H3; apply lat_distance_z_ref2]; assumption.
+Qed.
+Print Assumptions C02_lattice_invariant_distanceZ.
 Theorem C02_lattice_invariant_angle : forall lx ly lz, 0 < lx -> 0 < ly -> 0 < lz -> forall n1 n2 n3 g1 g2 g3,
   total_mass Rops g1 <> 0 -> total_mass Rops g2 <> 0 -> total_mass Rops g3 <> 0 ->
   cv_angle Rops PI true (Some (lx, ly, lz)) (lshift lx ly lz n1 g1) (lshift lx ly lz n2 g2) (lshift lx ly lz n3 g3) =
